@@ -118,7 +118,8 @@ def lmask_case(r):
     return [] if r is None else ['emBits %% 8 == %d' % r]
 
 
-LEN_CASES = {None: [], 'eq': ['len(em) == ' + EMLEN], 'gt': ['len(em) > ' + EMLEN], 'lt': ['len(em) < ' + EMLEN]}
+LEN_CASES = {None: [], 'eq': ['len(em) == ' + EMLEN], 'gt': ['len(em) > ' + EMLEN], 'lt': ['len(em) < ' + EMLEN],
+             'ne': ['len(em) != ' + EMLEN]}
 
 
 def emsa_verify_contract(r=None, lencase=None):
@@ -155,6 +156,61 @@ def emsa_encode_contract(r=None):
 
 # ---------------------------------------------------------------- RSASSA-PSS
 
+SCHEME = P + 'PSS_SigScheme'
+KEY_N, KEY_E, KEY_D = 'self._key._n._value', 'self._key._e._value', 'self._key._d._value'
+K = S + 'octets(%s)' % KEY_N                                     # length in octets of the modulus
+MODBITS = 'spec.mathint.size_in_bits(%s)' % KEY_N
+PSS_EMBITS = '(%s - 1)' % MODBITS                                # 8.1.1 step 1 / 8.1.2 step 3: emBits = modBits - 1
+PSS_EMLEN = S + 'ceil8(%s)' % PSS_EMBITS                         # emLen = ceil((modBits - 1) / 8): k, or k - 1 when modBits = 1 mod 8
+PSS_HLEN = 'msg_hash.digest_size'
+PSS_MHASH = S + 'Hash(msg_hash.g_alg, msg_hash.g_data)'
+PSS_SLEN = '(msg_hash.digest_size if self._saltLen is None else self._saltLen)'      # default salt length: hLen
+
+
+def pss_mask(seed):
+    """dbMask = MGF(seed, emLen - hLen - 1): the caller's mask_func if one was given, MGF1 with the message hash otherwise"""
+    n = '%s - %s - 1' % (PSS_EMLEN, PSS_HLEN)
+    return '(%smgf1(msg_hash.g_alg, %s, %s) if self._mgfunc is None else self._mgfunc(%s, %s))' % (S, seed, n, seed, n)
+
+
+def add_scheme(reg):
+    reg.add(ClassContract(SCHEME, fields={'_key': 'obj:' + RSA + 'RsaKey', '_saltLen': 'nat|none', '_mgfunc': OMGF + '|none',
+                                          '_randfunc': RANDFUNC},
+                          # domain: moduli of at most 2^32 octets (see module docstring: MGF1 is defined for masks <= 2^32 hLen)
+                          valid=['%s <= %s' % (K, TWO32)]))
+
+
+def pss_verify_contract():
+    m = 'pow(be(signature), %s, %s)' % (KEY_E, KEY_N)                                    # 8.1.2 step 2b: m = RSAVP1((n, e), s)
+    em = 'i2osp(%s, %s)' % (m, PSS_EMLEN)                                                # step 2c: EM = I2OSP(m, emLen)
+    H = S + 'pss_H(%s, %s, %s)' % (em, PSS_EMBITS, PSS_HLEN)
+    ok = S + 'emsa_pss_ok(msg_hash.g_alg, %s, %s, %s, %s, %s, %s)' % (PSS_HLEN, PSS_MHASH, em, PSS_EMBITS, PSS_SLEN, pss_mask(H))
+    accept = ('len(signature) == %s and be(signature) < %s and %s < pow2(8 * %s) and %s' % (K, KEY_N, m, PSS_EMLEN, ok))
+    return Contract(SCHEME + '.verify', params={'msg_hash': OHASH, 'signature': 'bytes'},
+                    # RFC 8017 8.1.2: "invalid signature" unless len(S) == k (step 1), s < n (RSAVP1), m < 256^emLen (I2OSP, step 2c)
+                    # and EMSA-PSS-VERIFY(M, EM, modBits - 1) == "consistent" (steps 3-4)
+                    raises={'ValueError': ('iff', 'not (%s)' % accept)},
+                    ensures={'none': 'result is None'},
+                    modifies=[], opaque=[S + 'mgf1', S + 'emsa_pss_ok'])
+
+
+def pss_sign_contract():
+    salt = 'rnd_tape(old(rnd_cursor()))'
+    H = S + 'emsa_pss_H(msg_hash.g_alg, %s, %s)' % (PSS_MHASH, salt)
+    em = S + 'emsa_pss_em(msg_hash.g_alg, %s, %s, %s, %s, %s)' % (PSS_HLEN, PSS_MHASH, PSS_EMBITS, salt, pss_mask(H))
+    short = '%s < %s + %s + 2' % (PSS_EMLEN, PSS_HLEN, PSS_SLEN)                         # 9.1.1 step 3: "encoding error"
+    sig = 'pow(be(%s), %s, %s)' % (em, KEY_D, KEY_N)                                     # 8.1.1 step 2b: s = RSASP1(K, OS2IP(EM))
+    fault = 'be(%s) != pow(%s, %s, %s)' % (em, sig, KEY_E, KEY_N)                        # the library's fault check
+    return Contract(SCHEME + '.sign', params={'msg_hash': OHASH},
+                    raises={'ValueError': ('iff', '%s or be(%s) >= %s or (hasattr(self._key, "_d") and %s)' % (short, em, KEY_N, fault)),
+                            'TypeError': ('iff', 'not hasattr(self._key, "_d") and not (%s) and be(%s) < %s' % (short, em, KEY_N))},
+                    result='bytes',
+                    ensures={'rfc8017_8_1_1': 'result == i2osp(%s, %s)' % (sig, K),
+                             'salt': 'len(%s) == %s' % (salt, PSS_SLEN),
+                             'entropy': 'rnd_cursor() == old(rnd_cursor()) + 1'},
+                    modifies=[], opaque=[S + 'mgf1', S + 'emsa_pss_em'])
+
+
 def registry(r=None, lencase=None):
     r = None if r in (None, '') else int(r)
     lencase = lencase or None
@@ -163,6 +219,9 @@ def registry(r=None, lencase=None):
     add_mgf(reg)
     reg.add(emsa_verify_contract(r, lencase))
     reg.add(emsa_encode_contract(r))
+    add_scheme(reg)
+    reg.add(pss_verify_contract())
+    reg.add(pss_sign_contract())
     return reg
 
 
@@ -173,6 +232,10 @@ def units(prop, tier):
         out.append(pyvc_unit(prop, 'sig.pss.MGF1', registry, [P + 'MGF1']))
     if prop == 'C04':
         for r in range(8):
-            out.append(pyvc_unit(prop, 'sig.pss.emsa_verify.embits_mod8_%d' % r, (lambda r=r: registry(r)), [P + '_EMSA_PSS_VERIFY']))
+            for lc in ('eq', 'ne'):
+                out.append(pyvc_unit(prop, 'sig.pss.emsa_verify.embits_mod8_%d.len_%s' % (r, lc), (lambda r=r, lc=lc: registry(r, lc)),
+                                     [P + '_EMSA_PSS_VERIFY']))
             out.append(pyvc_unit(prop, 'sig.pss.emsa_encode.embits_mod8_%d' % r, (lambda r=r: registry(r)), [P + '_EMSA_PSS_ENCODE']))
+        out.append(pyvc_unit(prop, 'sig.pss.verify', registry, [SCHEME + '.verify']))
+        out.append(pyvc_unit(prop, 'sig.pss.sign', registry, [SCHEME + '.sign']))
     return out
